@@ -21,6 +21,8 @@ pub enum Shape {
     EachStream,
     /// `1..k | each {|i| $"s($i)"}`
     RangeStream,
+    /// `"x" | ignore`: the pipeline produces nothing at all
+    Ignore,
 }
 
 #[derive(Clone, Debug, Serialize, Deserialize)]
@@ -56,7 +58,7 @@ pub struct C18Case {
 pub fn strategy() -> BoxedStrategy<C18Case> {
     let s = || prop_oneof![6 => "[a-z0-9 ]{1,6}", 1 => Just(String::new()), 1 => Just("é日本".to_string())];
     let plain = (
-        prop_oneof![2 => Just(Shape::Single), 2 => Just(Shape::BareList), 3 => Just(Shape::EachStream), 2 => Just(Shape::RangeStream)],
+        prop_oneof![2 => Just(Shape::Single), 2 => Just(Shape::BareList), 3 => Just(Shape::EachStream), 2 => Just(Shape::RangeStream), 1 => Just(Shape::Ignore)],
         proptest::collection::vec(s(), 0..=5),
         prop_oneof![8 => Just(1u8), 2 => Just(2u8), 1 => Just(3u8)],
     )
@@ -101,12 +103,14 @@ fn expr(shape: &Shape, strings: &[String]) -> String {
         Shape::BareList => list,
         Shape::EachStream => format!("{list} | each {{|x| $x}}"),
         Shape::RangeStream => format!("1..{} | each {{|i| $\"s($i)\"}}", strings.len().max(1)),
+        Shape::Ignore => "\"x\" | ignore".to_string(),
     }
 }
 
 fn produced(shape: &Shape, strings: &[String]) -> Vec<String> {
     match shape {
         Shape::RangeStream => (1..=strings.len().max(1)).map(|i| format!("s{i}")).collect(),
+        Shape::Ignore => vec![],
         _ => strings.to_vec(),
     }
 }
